@@ -16,7 +16,13 @@ func ByNameSmart(a, b string) bool {
 	v0, err0 := strconv.ParseFloat(a, 64)
 	v1, err1 := strconv.ParseFloat(b, 64)
 	if err0 == nil && err1 == nil {
-		return v0 < v1
+		if v0 < v1 {
+			return true
+		}
+		if v0 > v1 {
+			return false
+		}
+		return a < b // same value, different spelling (eg. "1" and "1.0")
 	}
 	if (err0 == nil) != (err1 == nil) {
 		// Numbers order before text, otherwise the relation isn't transitive
